@@ -3,12 +3,30 @@
 -/
 import TdVerif.Model.C08UpdateAt
 import TdVerif.Lemmas.C08Set
+import TdVerif.Lemmas.C08Split
 namespace TdVerif.C08
 
-/-- for a value of the indexed batch size `update_at_` performs the writes of `__setitem__` -/
+/-- an index without a mask on / spanning the stack dim: `_split_index` reports `has_bool = False` -/
+theorem plain_noBool (L : Lazy α) (ix : List Ix) (hp : Plain L.sd ix) (hne : ∀ it ∈ ix, it ≠ Ix.ell)
+    (hadv : AtMostOneAdv ix) : ∀ st, splitIndex L ix = some st → st.hasBool = false := by
+  intro st hst
+  have hB := splitLoop_before L.sd L.members.length L.batch ix L.sd 0 {} (by simp) hp hne
+    (by simpa [AtMostOneAdv] using hadv) rfl rfl rfl rfl
+  unfold splitIndex at hst
+  cases hsel : selOf L.members.length (splitRec L.sd ix).item with
+  | none => simp [hB.1 hsel] at hst
+  | some p =>
+    obtain ⟨sel, ii, nd⟩ := p
+    obtain ⟨st', hloop, hspec⟩ := hB.2 sel ii nd hsel
+    simp only [hloop, Option.bind_some, hspec.hasBool, Bool.false_eq_true, if_false, Option.some.injEq] at hst
+    rw [← hst]; exact hspec.hasBool
+
+/-- for a value of the indexed batch size, and an index without a mask on / spanning the stack dim,
+`update_at_` performs the writes of `__setitem__` -/
 theorem lazyUpdateAt_eq_set (L : Lazy α) (ix ix' : List Ix) (v : TD α)
     (hix : convertEllipsis ix L.batch.length = some ix')
-    (hvb : idxShape ix' L.batch = some v.batch) (L' : Lazy α)
+    (hvb : idxShape ix' L.batch = some v.batch)
+    (hnb : ∀ st, splitIndex L ix' = some st → st.hasBool = false) (L' : Lazy α)
     (h : lazyUpdateAt L ix v = some L') : lazySetCore L ix' v = some L' := by
   unfold lazyUpdateAt at h
   rw [hix] at h
@@ -19,7 +37,10 @@ theorem lazyUpdateAt_eq_set (L : Lazy α) (ix ix' : List Ix) (v : TD α)
     rw [hst] at h
     simp only [Option.bind_some] at h
     by_cases hb : st.hasBool ∨ st.isNd
-    · rw [if_pos hb] at h; exact h
+    · rw [if_pos hb] at h
+      unfold lazySetCoreM at h
+      simp only [hst, hnb st hst, Bool.false_eq_true, if_false] at h
+      exact h
     · rw [if_neg hb] at h
       have hb1 : st.hasBool = false := by
         cases hh : st.hasBool <;> simp_all
